@@ -44,7 +44,7 @@ func main() {
 		Pkg:   "./cmd/c06",
 		Rule: "operations: valid new authorization; unsigned/garbage/temp-key/server-key/device-key/foreign-GCA/wrong-prefix signatures; exact duplicate; same content re-signed; conflict differing in exactly one field " +
 			"(PublicKey fresh / another registered device's / a banned device's, Latitude, Longitude, Capacity, Debt, Expiration, Initialization, ProtocolFee); submissions for banned ids; reports of authorized, banned and unknown devices; restarts. " +
-			"Non-trivial = an authorization for an id that is already authorized or banned; distinct by (operation, field changed, key relation, signer).",
+			"Non-trivial = an authorization for an id that is already authorized or banned; distinct by (operation, field changed, key relation, signer, situation: target has reports on disk / server was restarted before / an archived week exists).",
 		Assumptions: []string{
 			"rotation and impact jobs are gated (the test-mode fake impact value is derived from latitude+longitude and would be infinite for extreme coordinates)",
 			"latitude/longitude range over finite float64 values only (NaN and infinities cannot be written as JSON numbers)",
@@ -173,6 +173,7 @@ type world struct {
 	stop      bool
 	foreign   refenc.Key
 	savedViol int
+	restarts  int
 }
 
 func overCapacity(power, capacity uint64) bool {
@@ -216,6 +217,21 @@ func (w *world) op(format string, a ...interface{}) {
 	w.history = append(w.history, s)
 	w.opN++
 	run.Op("%s", s)
+}
+
+// ctx names the situation an operation meets (part of the distinctness key).
+func (w *world) ctx(d *dev) string {
+	c := ""
+	if d != nil && d.onDisk {
+		c += "/device-has-reports"
+	}
+	if w.restarts > 0 {
+		c += "/after-restart"
+	}
+	if len(w.archive) > 0 {
+		c += "/archive-exists"
+	}
+	return c
 }
 
 func (w *world) sorted(state int) []*dev {
@@ -358,6 +374,9 @@ type expect struct {
 	what  string // description for messages
 	class string // violation key class for an unexpected change
 	last  bool   // last operation of a sequence: every surface in full
+	// related: another device named by the operation (the owner of the key a conflict carried)
+	related    uint32
+	hasRelated bool
 }
 
 func (w *world) invariants() (ok bool, msg string) {
@@ -568,20 +587,70 @@ func (w *world) surfaces(s *server.VerifSnap, x expect) {
 		r.Count("surface.equipment", 1)
 	}
 	// TCP sync and recent-reports for every device ever seen
-	// A recent-reports answer costs the server two JSON encodings of 4032 records plus a signature. Operations that
-	// write the public-key index or the device table (new, ban, restart) are followed by a lookup of EVERY authorized
-	// device (status; content for the affected and one random other device); after the other operations the affected
-	// device and a 1/6 sample of the others are looked up. Keys without an authorized owner are always looked up (cheap).
-	fullAll := x.kind == "restart" || x.kind == "ban" || x.kind == "new" || x.last
-	pickOther := -1
-	if n := len(w.ids); n > 0 {
-		pickOther = w.rng.Intn(n)
+	// A recent-reports answer costs the server two JSON encodings of 4032 records plus a signature, so the by-key
+	// lookups of AUTHORIZED devices are planned per operation (the public-key index itself is compared exactly with
+	// the model after every operation in checkState; these lookups cross-check it through the public surface):
+	//   last op of a sequence: every device, content;   restart: every device (status), affected + 2 others content;
+	//   ban: the owner of a carried key (content) and 3 random others (status, one of them content);
+	//   new: the new device (content) and one random other (status);   report: the reporting device (content, 1/3 sample);
+	//   anything else (operations that must change nothing): the named device (status, 1/4 sample) and a 1/12 sample (content).
+	// Keys without an authorized owner are looked up after every operation (cheap: the server refuses at once).
+	look := map[uint32]int{} // 1 = status, 2 = content
+	var authIDs []uint32
+	for _, d := range w.sorted(stAuthorized) {
+		authIDs = append(authIDs, d.id)
+	}
+	random := func(n, mode int) {
+		for i := 0; i < n && len(authIDs) > 0; i++ {
+			id := authIDs[w.rng.Intn(len(authIDs))]
+			if look[id] < mode {
+				look[id] = mode
+			}
+		}
+	}
+	switch {
+	case x.last:
+		for _, id := range authIDs {
+			look[id] = 2
+		}
+	case x.kind == "restart":
+		for _, id := range authIDs {
+			look[id] = 1
+		}
+		random(2, 2)
+	case x.kind == "ban":
+		random(3, 1)
+		random(1, 2)
+	case x.kind == "new":
+		random(1, 1)
+		look[x.id] = 2
+	case x.kind == "report":
+		if w.rng.Intn(3) == 0 { // (the slot arrays themselves are compared with the model after every operation)
+			look[x.id] = 2
+		}
+	default:
+		if w.rng.Intn(4) == 0 {
+			look[x.id] = 1
+		}
+		if w.rng.Intn(12) == 0 {
+			random(1, 2)
+		}
+	}
+	if x.hasRelated {
+		look[x.related] = 2
 	}
 	for _, id := range w.ids {
 		d := w.devs[id]
 		var rep refenc.SyncReply
 		var refused bool
-		err, tok := w.try("sync", func() (e error) { rep, refused, e = w.Sync(id); return })
+		var err error
+		tok := true
+		for try := 0; try < 3 && tok; try++ { // the sync handler works against a 2.5 s connection deadline: under CPU starvation a reply can be cut short; a reply that stays unparsable is a finding
+			if err, tok = w.try("sync", func() (e error) { rep, refused, e = w.Sync(id); return }); err == nil {
+				break
+			}
+			r.Count("sync_reply_retries", 1)
+		}
 		if !tok {
 			return
 		}
@@ -606,11 +675,8 @@ func (w *world) surfaces(s *server.VerifSnap, x expect) {
 		r.Count("surface.sync", 1)
 		// lookup by public key
 		owner := w.keyOwner(d.auth.Pub)
-		content := id == x.id || x.kind == "restart" || x.last
-		if w.ids[pickOther] == id || w.rng.Intn(6) == 0 {
-			content = true
-		}
-		if owner != nil && !content && !fullAll {
+		content := owner != nil && look[owner.id] == 2
+		if owner != nil && look[owner.id] == 0 {
 			continue
 		}
 		if owner == nil || !content {
@@ -694,7 +760,7 @@ func (w *world) surfaces(s *server.VerifSnap, x expect) {
 	sort.Slice(weeks, func(i, j int) bool { return weeks[i] < weeks[j] })
 	for _, wk := range weeks {
 		body := w.archive[wk]
-		if !(fullAll || w.rng.Intn(3) == 0) {
+		if !(x.last || x.kind == "ban" || x.kind == "restart" || w.rng.Intn(4) == 0) {
 			continue
 		}
 		var st int
@@ -864,7 +930,7 @@ func (w *world) opBadSig(signer string) {
 	}
 	w.r.Count("badsig."+signer, 1)
 	if target != "fresh" {
-		w.r.Nontrivial("badsig/" + signer + "/" + target)
+		w.r.Nontrivial("badsig/" + signer + "/" + target + w.ctx(nil))
 	}
 	w.observe(expect{kind: "none", id: a.ID, what: fmt.Sprintf("authorization for id %d (%s) with signature kind %s (status %d)", a.ID, target, signer, st), class: "bad-signature"})
 }
@@ -885,7 +951,7 @@ func (w *world) opDup() {
 	} else {
 		w.r.Count("obs.duplicate_ok", 1)
 	}
-	w.r.Nontrivial("duplicate/exact")
+	w.r.Nontrivial("duplicate/exact" + w.ctx(d))
 	w.observe(expect{kind: "none", id: d.id, what: fmt.Sprintf("exact duplicate of the authorization of device %d (status %d)", d.id, st), class: "duplicate"})
 }
 
@@ -912,7 +978,7 @@ func (w *world) opResigned() {
 	if !ok {
 		return
 	}
-	w.r.Nontrivial("resigned")
+	w.r.Nontrivial("resigned" + w.ctx(d))
 	if st == 200 {
 		w.r.Count("resigned.treated_as_duplicate", 1)
 		w.observe(expect{kind: "none", id: d.id, what: fmt.Sprintf("re-signed identical content for device %d, answered 200 (duplicate)", d.id), class: "resigned-as-duplicate"})
@@ -1003,8 +1069,15 @@ func (w *world) opConflict(field string, keyRel string, d *dev) {
 		keyRel = "same"
 		a.Fee ^= 1 << uint(w.rng.Intn(64))
 	}
+	if bytes.Equal(a.Bytes()[:84], d.auth.Bytes()[:84]) {
+		// e.g. the "banned device's key" is the key this device itself was registered with (new id with a banned
+		// device's key): nothing would differ, this would be an exact duplicate. Use a fresh key instead.
+		field, keyRel = "PublicKey", "fresh"
+		a.Pub = refenc.GenKey(w.rng).Pub
+	}
 	a = a.Signed(w.GCA.Priv)
 	hadReports := d.onDisk
+	ctxBefore := w.ctx(d)
 	w.op("authorize conflict id=%d field=%s key=%s auth=%x", d.id, field, keyRel, a.Bytes())
 	st, ok := w.authorize(a)
 	if !ok {
@@ -1021,8 +1094,12 @@ func (w *world) opConflict(field string, keyRel string, d *dev) {
 	if hadReports {
 		w.r.Count("obs.ban_of_device_with_reports", 1)
 	}
-	w.r.Nontrivial("conflict/" + field + "/" + keyRel)
-	w.observe(expect{kind: "ban", id: d.id, what: fmt.Sprintf("conflicting authorization for device %d (field %s, key %s, status %d)", d.id, field, keyRel, st), class: "conflict"})
+	w.r.Nontrivial("conflict/" + field + "/" + keyRel + ctxBefore)
+	x := expect{kind: "ban", id: d.id, what: fmt.Sprintf("conflicting authorization for device %d (field %s, key %s, status %d)", d.id, field, keyRel, st), class: "conflict"}
+	if o := w.keyOwner(a.Pub); o != nil {
+		x.related, x.hasRelated = o.id, true // the registered device whose key the conflict carried
+	}
+	w.observe(x)
 }
 
 // opBannedSubmit: any validly signed authorization for a banned id is refused.
@@ -1057,7 +1134,7 @@ func (w *world) opBannedSubmit() {
 	} else {
 		w.r.Count("obs.banned_id_refused", 1)
 	}
-	w.r.Nontrivial("banned-submit/" + variant)
+	w.r.Nontrivial("banned-submit/" + variant + w.ctx(d))
 	w.observe(expect{kind: "none", id: d.id, what: fmt.Sprintf("authorization (%s) for banned id %d (status %d)", variant, d.id, st), class: "banned-id-submission"})
 }
 
@@ -1179,6 +1256,7 @@ func (w *world) opRestart() {
 		return
 	}
 	w.r.Count("obs.restart", 1)
+	w.restarts++
 	if bannedOnDisk {
 		w.r.Count("obs.restart_with_banned_reports_on_disk", 1)
 	}
